@@ -6,6 +6,7 @@
 import functools
 import os
 import pathlib
+import site
 import sys
 import sysconfig
 from abc import ABCMeta, abstractmethod
@@ -78,6 +79,8 @@ class Config(metaclass=ABCMeta):
 
 
 lib_paths = {sysconfig.get_path(n) for n in ["stdlib", "purelib", "platlib"]}
+# the per-user site-packages directory (pip install --user)
+lib_paths.add(site.getusersitepackages())
 # if in a virtualenv, also exclude the real stdlib location
 venv_real_prefix = getattr(sys, "real_prefix", None)
 if venv_real_prefix:
